@@ -23,6 +23,7 @@ func gen(c *hmain.Ctx) {
 		{Stream: "discard-before-hold", Opts: pipedrv.FamDiscardBeforeHold, N: 30},
 		{Stream: "retry", Opts: pipedrv.FamRetry, N: 20},
 		{Stream: "deadqueue", Opts: pipedrv.FamDeadQ, N: 20},
+		{Stream: "deadqueue-split", Opts: pipedrv.FamDeadQSplit, N: 20},
 	})
 }
 
